@@ -1,5 +1,267 @@
 import MementoModel.Lemmas.StoreLemmas
+
+/-!
+# C05 — every storage backend behaves like one dictionary of memoized calls
+
+Refinement of the abstract dictionary `Spec` by the memory backend, the filesystem backend and the
+filesystem backend with a write-through memory cache of any budget (`FsBackend` with
+`cache = some _`), for every operation and — by induction — every history.
+-/
+set_option linter.unusedSimpArgs false
+set_option linter.unusedVariables false
 namespace Memento.Store
-/-- (interim; the refinement theorems are being completed in a scratch copy) -/
-theorem placeholder_spec_empty : Spec.empty.entries = [] := rfl
+
+/-! ## The dictionary itself (the property's own words, proved on the spec) -/
+
+/-- reads return the last value written -/
+theorem spec_read_last_write (sp : Spec) (fn arg ov mem val sz wr) :
+    let sp' := (Spec.step sp (.memoize fn arg ov mem val sz wr)).1
+    (Spec.step sp' (.lookread fn arg)).2 = .val (some val) ∧
+    (Spec.step sp' (.getm [(fn, arg)])).2 = .mems [some mem] := by
+  simp [Spec.step, alookup_aset]
+
+/-- forgetting removes exactly its scope: the call is gone, every other call is untouched -/
+theorem spec_forget_call_scope (sp : Spec) (fn arg fn' arg') :
+    let sp' := (Spec.step sp (.fcall fn arg)).1
+    (Spec.step sp' (.lookread fn arg)).2 = .val none ∧
+    ((fn', arg') ≠ (fn, arg) → (Spec.step sp' (.lookread fn' arg')).2 = (Spec.step sp (.lookread fn' arg')).2) := by
+  simp only [Spec.step, alookup_adel]
+  refine ⟨by simp, ?_⟩
+  intro h; simp [h]
+
+theorem spec_forget_function_scope (sp : Spec) (fn fn' arg') :
+    let sp' := (Spec.step sp (.ffn fn)).1
+    (Spec.step sp' (.lookread fn arg')).2 = .val none ∧
+    (fn' ≠ fn → (Spec.step sp' (.lookread fn' arg')).2 = (Spec.step sp (.lookread fn' arg')).2) := by
+  simp only [Spec.step]
+  refine ⟨?_, ?_⟩
+  · rw [alookup_filter sp.entries (fun k => !(k.1 == fn))]; simp
+  · intro h
+    rw [alookup_filter sp.entries (fun k => !(k.1 == fn))]; simp [h]
+
+/-- nothing forgotten ever reappears: absent stays absent under every op except a memoize of it -/
+theorem spec_no_resurrection (sp : Spec) (fn arg : Nat) (op : Op)
+    (habs : alookup sp.entries (fn, arg) = none)
+    (hop : ∀ ov mem val sz wr, op ≠ .memoize fn arg ov mem val sz wr) :
+    alookup (Spec.step sp op).1.entries (fn, arg) = none := by
+  cases op with
+  | memoize f a ov mem val sz wr =>
+    have : (fn, arg) ≠ (f, a) := by
+      intro e; cases e; exact hop ov mem val sz wr rfl
+    simp [Spec.step, alookup_aset, this, habs]
+  | fcall f a => simp only [Spec.step, alookup_adel, habs]; simp
+  | ffn f =>
+    simp only [Spec.step]
+    rw [alookup_filter sp.entries (fun k => !(k.1 == f)), habs]; simp
+  | fall => rfl
+  | _ => simpa [Spec.step] using habs
+
+/-! ## Memory backend -/
+
+theorem mem_init_inv : MemInv (MemBackend.init false) :=
+  ⟨by simp [MemBackend.init], by simp [MemBackend.init], rfl⟩
+
+/-- one step of the memory backend = one step of the dictionary (same answer, same abstract state) -/
+theorem membackend_refines_dict (s : MemBackend) (op : Op) (h : MemInv s) (hadm : MemBackend.admissible s op) :
+    (MemBackend.step s op).2 = (Spec.step (MemBackend.abs s) op).2 ∧
+    MemBackend.abs (MemBackend.step s op).1 = (Spec.step (MemBackend.abs s) op).1 ∧
+    MemInv (MemBackend.step s op).1 := by
+  open MemBackend in
+  have hw := h.writable
+  cases op with
+  | memoize fn arg ov mem val sz wr =>
+    simp only [MemBackend.step, hw, Bool.false_eq_true, if_false, Spec.step, true_and]
+    refine ⟨?_, ?_⟩
+    · simp only [abs_eq]
+      congr 1
+      simp only [aset_eq, List.map_cons]
+      congr 1
+      · simp [absEntry, alookup_cons]
+      · rw [filter_map_absEntry _ _ (nekey (fn, arg))]
+        apply map_absEntry_congr
+        intro p hp
+        have := (List.mem_filter.mp hp).2
+        have hne : ¬ (fn, arg) = p.1 := fun e => (nekey_iff _ _).mp this e.symm
+        rw [alookup_cons, if_neg hne, alookup_filter s.result (nekey (fn, arg)), if_pos this]
+    · refine ⟨keys_aset_nodup _ _ h.nodup, ?_, rfl⟩
+      intro p hp
+      simp only [alookup_aset]
+      rcases mem_aset hp with rfl | ⟨hp, hne⟩
+      · simp
+      · simp only [hne, if_false]; exact h.hasResult p hp
+  | getm ks =>
+    simp only [MemBackend.step, Spec.step, true_and]
+    refine ⟨?_, h⟩
+    congr 1
+    apply List.map_congr_left
+    intro k _
+    simp only [abs_eq, alookup_abs_entries]
+    cases alookup s.mementos k <;> rfl
+  | lookread fn arg =>
+    simp only [MemBackend.step, Spec.step, abs_eq, alookup_abs_entries]
+    cases hm : alookup s.mementos (fn, arg) with
+    | none => exact ⟨rfl, rfl, h⟩
+    | some m =>
+      refine ⟨?_, rfl, h⟩
+      have := h.hasResult _ (alookup_mem hm)
+      simp only at this ⊢
+      cases hr : alookup s.result (fn, arg) with
+      | none => simp [hr] at this
+      | some v => simp
+  | ismem fn arg =>
+    simp only [MemBackend.step, Spec.step, abs_eq, alookup_abs_entries, true_and]
+    refine ⟨?_, h⟩
+    cases alookup s.mementos (fn, arg) <;> rfl
+  | fcall fn arg =>
+    simp only [MemBackend.step, hw, Bool.false_eq_true, if_false, Spec.step, true_and]
+    refine ⟨?_, ?_⟩
+    · simp only [abs_eq, adel_eq]
+      congr 1
+      exact map_absEntry_filter s.mementos s.result (nekey (fn, arg))
+    · refine ⟨keys_filter_nodup _ h.nodup, ?_, rfl⟩
+      intro p hp
+      have hp' : p ∈ s.mementos ∧ nekey (fn, arg) p.1 = true := List.mem_filter.mp hp
+      simp only [adel_eq]
+      rw [alookup_filter s.result (nekey (fn, arg)), if_pos hp'.2]
+      exact h.hasResult p hp'.1
+  | ffn fn =>
+    simp only [MemBackend.step, hw, Bool.false_eq_true, if_false, Spec.step, true_and]
+    refine ⟨?_, ?_⟩
+    · simp only [abs_eq]
+      congr 1
+      exact map_absEntry_filter s.mementos s.result (fun k => !(k.1 == fn))
+    · refine ⟨keys_filter_nodup _ h.nodup, ?_, rfl⟩
+      intro p hp
+      have hp' := List.mem_filter.mp hp
+      simp only at hp' ⊢
+      rw [alookup_filter s.result (fun k => !(k.1 == fn)), if_pos hp'.2]
+      exact h.hasResult p hp'.1
+  | fall =>
+    simp only [MemBackend.step, hw, Bool.false_eq_true, if_false, Spec.step, true_and]
+    exact ⟨rfl, by simp, by simp, rfl⟩
+  | lsf =>
+    simp only [MemBackend.step, Spec.step, true_and]
+    refine ⟨?_, h⟩
+    simp [abs_eq, absEntry, List.map_map, Function.comp_def]
+  | lsm fn =>
+    simp only [MemBackend.step, Spec.step, true_and]
+    refine ⟨?_, h⟩
+    rw [abs_eq]
+    simp only
+    rw [filter_map_absEntry _ _ (fun k => k.1 == fn)]
+    simp [absEntry, List.map_map, Function.comp_def]
+  | wmeta fn arg k b =>
+    simp only [MemBackend.step, hw, Bool.false_eq_true, if_false, Spec.step, true_and]
+    exact ⟨rfl, h.nodup, h.hasResult, rfl⟩
+  | rmeta fn arg k => exact ⟨rfl, rfl, h⟩
+  | hold b => exact ⟨rfl, rfl, h⟩
+  | drop b => exact ⟨rfl, rfl, h⟩
+
+
+/-! ## Filesystem backend, with or without the memory cache -/
+
+theorem fs_init_wf (separate : Bool) (budget : Option Nat) : WF (FsBackend.init separate budget false) :=
+  wf_init separate budget
+
+/-- one step of the filesystem backend (any cache budget, or none) = one step of the dictionary -/
+theorem fsbackend_refines_dict (s : FsBackend) (op : Op) (h : WF s) (hadm : FsBackend.admissible s op) :
+    (FsBackend.step s op).2 = (Spec.step (FsBackend.abs s) op).2 ∧
+    FsBackend.abs (FsBackend.step s op).1 = (Spec.step (FsBackend.abs s) op).1 ∧
+    WF (FsBackend.step s op).1 :=
+  fs_refines h op hadm
+
+/-! ## Histories -/
+
+/-- run a history, collecting the answers -/
+def runFs (s : FsBackend) : List Op → FsBackend × List Out
+  | [] => (s, [])
+  | op :: ops => let (s1, o) := FsBackend.step s op; let (s2, os) := runFs s1 ops; (s2, o :: os)
+
+def runSpec (sp : Spec) : List Op → Spec × List Out
+  | [] => (sp, [])
+  | op :: ops => let (s1, o) := Spec.step sp op; let (s2, os) := runSpec s1 ops; (s2, o :: os)
+
+def runMem (s : MemBackend) : List Op → MemBackend × List Out
+  | [] => (s, [])
+  | op :: ops => let (s1, o) := MemBackend.step s op; let (s2, os) := runMem s1 ops; (s2, o :: os)
+
+/-- admissibility along a history -/
+def AdmissibleFs : FsBackend → List Op → Prop
+  | _, [] => True
+  | s, op :: ops => FsBackend.admissible s op ∧ AdmissibleFs (FsBackend.step s op).1 ops
+
+def AdmissibleMem : MemBackend → List Op → Prop
+  | _, [] => True
+  | s, op :: ops => MemBackend.admissible s op ∧ AdmissibleMem (MemBackend.step s op).1 ops
+
+/-- **every history**: the filesystem backend (shared or separate metadata root, no cache or a cache
+    of any budget) gives exactly the answers of the dictionary -/
+theorem fs_history_refines_dict (separate : Bool) (budget : Option Nat) (ops : List Op)
+    (hadm : AdmissibleFs (FsBackend.init separate budget false) ops) :
+    (runFs (FsBackend.init separate budget false) ops).2 = (runSpec Spec.empty ops).2 := by
+  suffices H : ∀ (ops : List Op) (s : FsBackend), WF s → AdmissibleFs s ops →
+      (runFs s ops).2 = (runSpec (FsBackend.abs s) ops).2 by
+    have := H ops _ (fs_init_wf separate budget) hadm
+    rwa [abs_init] at this
+  intro ops
+  induction ops with
+  | nil => intro s _ _; rfl
+  | cons op ops ih =>
+    intro s hwf hadm
+    obtain ⟨h1, h2, h3⟩ := fsbackend_refines_dict s op hwf hadm.1
+    have := ih _ h3 hadm.2
+    simp only [runFs, runSpec]
+    rw [this, h1, h2]
+
+/-- **every history**: the memory backend gives exactly the answers of the dictionary -/
+theorem mem_history_refines_dict (ops : List Op) (hadm : AdmissibleMem (MemBackend.init false) ops) :
+    (runMem (MemBackend.init false) ops).2 = (runSpec Spec.empty ops).2 := by
+  suffices H : ∀ (ops : List Op) (s : MemBackend), MemInv s → AdmissibleMem s ops →
+      (runMem s ops).2 = (runSpec (MemBackend.abs s) ops).2 from
+    H ops _ mem_init_inv hadm
+  intro ops
+  induction ops with
+  | nil => intro s _ _; rfl
+  | cons op ops ih =>
+    intro s hinv hadm
+    obtain ⟨h1, h2, h3⟩ := membackend_refines_dict s op hinv hadm.1
+    have := ih _ h3 hadm.2
+    simp only [runMem, runSpec]
+    rw [this, h1, h2]
+
+/-! ## Non-vacuity -/
+
+private def demo : List Op :=
+  [.memoize 1 1 none 10 (some 7) 40 false, .memoize 2 1 (some 1) 11 (some 8) 40 false, .wmeta 1 1 1 5,
+   .lookread 1 1, .ffn 1, .lookread 1 1, .lsf, .memoize 2 1 (some 1) 12 none 16 false, .lookread 2 1]
+
+example : (runFs (FsBackend.init false (some 100) false) demo).2 = (runSpec Spec.empty demo).2 := by decide
+example : (runMem (MemBackend.init false) demo).2 = (runSpec Spec.empty demo).2 := by decide
+
+/-- a decidable sufficient condition for `AdmissibleFs` -/
+def admissibleFsB : FsBackend → List Op → Bool
+  | _, [] => true
+  | s, op :: ops => FsBackend.admissibleB s op && admissibleFsB (FsBackend.step s op).1 ops
+
+theorem admissibleFs_of_B : ∀ (ops : List Op) (s : FsBackend), admissibleFsB s ops = true → AdmissibleFs s ops
+  | [], _, _ => trivial
+  | op :: ops, s, h => by
+    simp only [admissibleFsB, Bool.and_eq_true] at h
+    exact ⟨FsBackend.admissible_of_B h.1, admissibleFs_of_B ops _ h.2⟩
+
+/-- the hypothesis of `fs_history_refines_dict` is satisfiable by a history exercising the cache,
+    overrides, metadata and forgetting -/
+example : AdmissibleFs (FsBackend.init false (some 100) false) demo := admissibleFs_of_B _ _ (by decide)
+example : AdmissibleFs (FsBackend.init true none false) demo := admissibleFs_of_B _ _ (by decide)
+
+/-- why `FsBackend.admissible` bounds the byte-string identity of a memoized value by `999999`:
+    the cache model encodes object identities as `bytes id + 1 + 10^6 * generation` and decodes
+    with `% 10^6`, so with a cache the (otherwise admissible) history below reads back bytes `0`
+    where the dictionary says `999999`.  An artefact of the identity encoding of the model
+    (`FsBackend.objId` / `objBytes`), not of the backend. -/
+private def cexBigBytes : List Op := [.memoize 1 1 none 10 (some 999999) 40 false, .lookread 1 1]
+
+example : (runFs (FsBackend.init false (some 100) false) cexBigBytes).2 = [.unit, .val (some (some 0))] ∧
+    (runSpec Spec.empty cexBigBytes).2 = [.unit, .val (some (some 999999))] := by decide
+
 end Memento.Store
